@@ -27,6 +27,11 @@ type LimPeer struct {
 	Subnet int   `json:"subnet"` // 0..1: second octet group
 	Host   int   `json:"host"`   // 1..3: last octet
 	Bursts []int `json:"bursts"` // concurrent RPCs in burst k
+	// Out: the limited node dials this peer (Syncer.Connect) instead of being
+	// dialled by it; the peer's requests then arrive over an outbound
+	// connection. The limits are per peer and per subnet of the remote address,
+	// whoever opened the connection.
+	Out bool `json:"out,omitempty"`
 }
 
 // LimCase configures the RPC handler limits of one syncer and the bursts.
@@ -110,7 +115,7 @@ func genLim(t *rapid.T) LimCase {
 	for i := 0; i < np; i++ {
 		// addresses 127.{40,41}.7.{1,2,3}: same /8, two /16 and /24, .2 and .3
 		// share a /31 - neighbouring prefix lengths group them differently
-		p := LimPeer{Subnet: rapid.IntRange(0, 1).Draw(t, "subnet"), Host: rapid.IntRange(1, 3).Draw(t, "host")}
+		p := LimPeer{Subnet: rapid.IntRange(0, 1).Draw(t, "subnet"), Host: rapid.IntRange(1, 3).Draw(t, "host"), Out: rapid.Bool().Draw(t, "out")}
 		for b := 0; b < nb; b++ {
 			p.Bursts = append(p.Bursts, rapid.IntRange(0, 3*c.PerPeer+1).Draw(t, "burst"))
 		}
@@ -193,7 +198,33 @@ func runLim(c LimCase, cs *kit.CaseStats) error {
 	for i, p := range c.Peers {
 		gp := &p2px.GWPeer{Genesis: genesisID, UniqueID: p2px.DetUniqueID("lim-peer", i), IP: p.ip(), NetAddress: fmt.Sprintf("%s:%d", p.ip(), 2000+i)}
 		defer gp.Close()
-		conn, err := gp.Dial(context.Background(), srv.Addr(), 20*time.Second)
+		var conn *p2px.GWConn
+		var err error
+		if p.Out {
+			// the limited node dials the peer
+			if err := gp.Listen(); err != nil {
+				return fmt.Errorf("INFRA: %v", err)
+			}
+			acc := make(chan *p2px.GWConn, 1)
+			go func() {
+				c, _ := gp.Accept(20 * time.Second)
+				acc <- c
+			}()
+			ctx, cancel := context.WithTimeout(context.Background(), 20*time.Second)
+			_, err = srv.S.Connect(ctx, gp.NetAddress)
+			cancel()
+			if err == nil {
+				select {
+				case conn = <-acc:
+				case <-time.After(20 * time.Second):
+				}
+				if conn == nil {
+					err = fmt.Errorf("the scripted peer did not see the connection")
+				}
+			}
+		} else {
+			conn, err = gp.Dial(context.Background(), srv.Addr(), 20*time.Second)
+		}
 		if err != nil {
 			cs.Inconclusive("handshake-failed")
 			return nil
@@ -215,6 +246,22 @@ func runLim(c LimCase, cs *kit.CaseStats) error {
 	}
 	sort.Strings(groupKeys)
 	cs.Classf("subnets=%d", len(groups))
+	for _, g := range groupKeys {
+		in, out := 0, 0
+		for _, i := range groups[g] {
+			if c.Peers[i].Out {
+				out++
+			} else {
+				in++
+			}
+		}
+		switch {
+		case in > 0 && out > 0:
+			cs.Class("subnet-shared-by-inbound-and-outbound-peers")
+		case out > 0:
+			cs.Class("subnet-of-outbound-peers-only")
+		}
+	}
 	cs.Classf("request-layout=%s", []string{"contiguous", "free", "ids-first"}[mod(c.Order, 3)])
 	if c.PerSubnet <= 0 {
 		cs.Class("per-subnet=disabled")
@@ -442,7 +489,15 @@ func runLim(c LimCase, cs *kit.CaseStats) error {
 		if c.PerSubnet > 0 {
 			for _, g := range groupKeys {
 				if m := final.Max["subnet:"+g]; m > c.PerSubnet {
-					return fmt.Errorf("burst %d: %d handlers ran concurrently for subnet %s, per-subnet limit is %d", b, m, g, c.PerSubnet)
+					var who []string
+					for _, i := range groups[g] {
+						dir := "dialled the node"
+						if c.Peers[i].Out {
+							dir = "was dialled by the node"
+						}
+						who = append(who, fmt.Sprintf("peer %d (%s, %s, max %d at once)", i, c.Peers[i].ip(), dir, final.Max[fmt.Sprintf("peer:%d", i)]))
+					}
+					return fmt.Errorf("burst %d: %d handlers ran concurrently for subnet %s, per-subnet limit is %d; peers of that subnet: %s", b, m, g, c.PerSubnet, strings.Join(who, ", "))
 				}
 			}
 		}
@@ -525,7 +580,7 @@ func runLim(c LimCase, cs *kit.CaseStats) error {
 
 var c18LimProp = kit.Prop[LimCase]{
 	ID:   "C18",
-	Rule: "syncer RPC handler limits: per-peer limit 1..8, per-subnet limit <= 0 (disabled) or 1..8, IPv4 subnet prefix drawn from {0, 8, 16, 24, 31, 32} and the out-of-range values {-1, 33, 64} (documented: ignored, /32 used), IPv6 argument from {0, 48, 64, 128, -1, 129}, 1..4 scripted gateway peers dialing from 127.{40,41}.7.{1,2,3} (same /8, two /16 and /24, .2/.3 share a /31, so neighbouring prefix lengths group them differently), 2..3 bursts of 0..3L+1 concurrent SendV2Blocks / SendTransactions / SendHeaders requests per peer whose handlers are held inside a wrapping ChainManager; in two of three cases every burst is preceded by 1..10 RPCs per peer whose handler ends with an error (headers from an unknown index, unknown checkpoint, undecodable request body). Oracle: concurrent handlers per peer <= L and per subnet <= S at all times; while held, every subnet reaches min(S, Σ min(L, n_p)) (so no slot leaked by an earlier burst, including bursts with subnet drops); every request is answered unless its subnet can exceed S (then it may be dropped, the connection stays usable); at least the admitted number is answered. Non-trivial = some peer's burst >= 2x the per-peer limit.",
+	Rule: "syncer RPC handler limits: per-peer limit 1..8, per-subnet limit <= 0 (disabled) or 1..8, IPv4 subnet prefix drawn from {0, 8, 16, 24, 31, 32} and the out-of-range values {-1, 33, 64} (documented: ignored, /32 used), IPv6 argument from {0, 48, 64, 128, -1, 129}, 1..4 scripted gateway peers at 127.{40,41}.7.{1,2,3}, each either dialling the limited node or dialled by it (Syncer.Connect), their requests arriving over that connection - the limits count per peer and per subnet of the remote address across both directions - (same /8, two /16 and /24, .2/.3 share a /31, so neighbouring prefix lengths group them differently), 2..3 bursts of 0..3L+1 concurrent SendV2Blocks / SendTransactions / SendHeaders requests per peer whose handlers are held inside a wrapping ChainManager; in two of three cases every burst is preceded by 1..10 RPCs per peer whose handler ends with an error (headers from an unknown index, unknown checkpoint, undecodable request body). Oracle: concurrent handlers per peer <= L and per subnet <= S at all times; while held, every subnet reaches min(S, Σ min(L, n_p)) (so no slot leaked by an earlier burst, including bursts with subnet drops); every request is answered unless its subnet can exceed S (then it may be dropped, the connection stays usable); at least the admitted number is answered. Non-trivial = some peer's burst >= 2x the per-peer limit.",
 	Assumptions: []string{
 		"per-peer limit <= 0 is not documented as 'disabled' (only the per-subnet option is) and is kept out of the generator",
 		"the subnet of a peer is computed by the harness from its source address and the configured prefix, independently of the syncer",
